@@ -21,7 +21,13 @@ from harness import gen, dense, algos
 RULE = ("random trees 1..6 nodes (uniform/chain/star/spider/..., single node), complex unnormalised states, root bond "
         "dimension 1..4, TTNO from gen.random_ttno_like (own child order, non-Hermitian) or algos.ttno_from_terms, "
         "tensor products on 0,1,2,..,N sites; exact and float regimes; identifier styles plain / ending in _bra / "
-        "containing _ket (regression cases of the fixed F-C16b). non-trivial = reference != 0 on a tree with >= 2 nodes or root bond > 1")
+        "containing _ket (regression cases of the fixed F-C16b). non-trivial = reference != 0 on a tree with >= 2 nodes or root bond > 1. "
+        "input-space audit axes: call forms of from_ttns (both defaults / root_id only / root_bond_dim only / positional / "
+        "keywords), custom root identifiers, root bond 5..8 and NumPy integers, element types real / int64 / complex64 / "
+        "read-only strided views, canonical source states, magnitudes 1e-8..1e+8, identifiers that are prefixes of each "
+        "other; 160 networks built by hand through add_trivial_root / add_symmetric_children_to_parent with custom "
+        "(bra, ket) suffixes and parent_bra_leg omitted / None / explicit (oracle only), the documented ValueError; the "
+        "network must be unchanged by the queries")
 PARTIAL = [
     "value level (the contraction equals <psi|O|psi>) is decided by the dense oracle; Lean proves the structure of "
     "from_ttns (ttndo_structure), the identifier maps (suffix_tagging, reverseId_append), the padding lemma "
@@ -40,12 +46,38 @@ ASSUMPTIONS = ["NumPy tensordot/pad/reshape semantics", "dense contraction by te
 MAX_DENSE = 72
 ROOT_ID = "ttndo_root"
 
+# ---------------------------------------------------------------------------------------------------------------------
+# PENDING FINDINGS (input-space audit).  Behaviour of the UNCHANGED /repo that violates the property on inputs the
+# audit added; reported to the coordinator, not yet repaired in /repo nor recorded in known_findings.json.  While an
+# entry is present the named inputs are NOT generated (gen_cases consults this dict); delete the entry to arm them.
+PENDING_FINDINGS = {
+    "P-C16-root-id-ket-suffix": {
+        "inputs": "from_ttns(psi, root_id=<any string ending in '_ket'>), e.g. root_id='rho_ket' on any state "
+                  "(notes/C16.md, 'Input-space audit', script)",
+        "message": "trace(): raised KeyError: 'rho_bra' (ttndo_contraction_order keeps every identifier that ends with "
+                   "the ket suffix, so the TTNDO root is taken for a ket copy); every expectation value fails the same way",
+        "disabled": "root identifiers ending in the ket suffix are not generated (ROOT_IDS_PENDING for from_ttns; "
+                    "replaced by 'R' for the manually built networks with custom suffixes)",
+    },
+}
+ROOT_IDS = ["R", "0", "rho_bra", "a_ket_b", "ttndo_root_", "_bra", "n0_ke", "root"]
+ROOT_IDS_PENDING = ["rho_ket", "_ket"]
+# ---------------------------------------------------------------------------------------------------------------------
+
+# custom (bra_suffix, ket_suffix) pairs of SymmetricTTNDO for the manually built networks; neither is a suffix of the
+# other (otherwise the tagging is ambiguous: outside the property)
+SUFFIXES = [("_bra", "_ket"), ("_b", "_k"), (".bra", ".ket"), ("*", "+"), ("_ket", "_bra"), ("]", "["), ("B", "K")]
+SINGLE_TOL = 2e-4
+
 
 # ------------------------------------------------------------------ construction
 
 def _names(style, n, rng):
     if style == "plain":
         return {i: f"n{i}" for i in range(n)}
+    if style == "prefix":      # identifiers that are prefixes of each other, also by a partial suffix
+        pool = ["q1", "q10", "q100", "q1_", "q1_k", "q1_ke", "q1_b", "q10_"]
+        return {i: pool[i] for i in range(n)}
     if style == "bra":         # identifiers ending in / containing `_bra`, also pairs x / x_bra
         names = {}
         for i in range(n):
@@ -89,8 +121,25 @@ def _make(case):
     d = _phys(rng, n)
     names = _names(case["names"], n, rng)
     open_dims = {i: [d[i]] for i in range(n)}
+    dt = case.get("dtype", "c128")
     psi, _, _, _ = gen.build_network(TreeTensorNetworkState, par, gen.random_bonds(rng, par), open_dims, rng, nprng,
-                                     names=names, small_int=exact)
+                                     names=names, small_int=exact, complex_=dt not in ("real", "int"))
+    if dt in ("int", "single", "view"):
+        from harness.props.c04 import _convert
+        _convert(psi, dt)
+    if case.get("gauge") and not exact:
+        # a canonical source state (child orders permuted by the canonicalisation, centre recorded)
+        try:
+            psi.canonical_form(rng.choice(sorted(psi.nodes)))
+        except Exception:       # noqa: BLE001  (C03's subject)
+            pass
+    mag = case.get("mag", 0)
+    if mag and not exact:
+        c = psi.orthogonality_center_id         # a recorded centre stays a true centre: rescale there only
+        f = 10.0 ** (mag / (1 if c is not None else n))
+        for nid in ([c] if c is not None else list(psi.nodes)):
+            t = np.asarray(psi.tensors[nid])
+            psi.replace_tensor(nid, (t * f).astype(t.dtype))
     phys = {i: d[i] for i in range(n)}
     if case["ttno"] == "terms":
         terms = []
@@ -101,6 +150,68 @@ def _make(case):
     else:
         ttno, _ = gen.random_ttno_like(rng, nprng, par, phys, names=names, small_int=exact)
     return rng, nprng, psi, ttno, names
+
+
+# ------------------------------------------------------------------ the network under test
+
+def _root_params(case):
+    """(root_id, root_bond_dim) the network must end up with."""
+    call = case.get("call", "explicit")
+    rid = ROOT_ID if call in ("defaults", "dim_only") else case.get("root_id", ROOT_ID)
+    rdim = 2 if call in ("defaults", "root_only") else case["rdim"]
+    return rid, rdim
+
+
+def _build_rho(case, psi):
+    """The density-operator network of the case: `from_ttns` in one of its call forms (documented defaults
+    root_id='ttndo_root', root_bond_dim=2), or built by hand through the public SymmetricTTNDO API with custom
+    suffixes.  Returns (rho, root_id, root_bond_dim, bra_suffix, ket_suffix)."""
+    from pytreenet.ttns.ttndo import from_ttns, SymmetricTTNDO
+    rid, rdim = _root_params(case)
+    call = case.get("call", "explicit")
+    rd = np.int64(rdim) if case.get("rdim_np") else rdim
+    if case.get("build", "from_ttns") == "from_ttns":
+        if call == "explicit":
+            rho = from_ttns(psi, root_id=rid, root_bond_dim=rd)
+        elif call == "defaults":
+            rho = from_ttns(psi)
+        elif call == "positional":
+            rho = from_ttns(psi, rid, rd)
+        elif call == "root_only":
+            rho = from_ttns(psi, root_id=rid)
+        elif call == "dim_only":
+            rho = from_ttns(psi, root_bond_dim=rd)
+        else:
+            raise ValueError(call)
+        return rho, rid, rdim, "_bra", "_ket"
+    bs, ks = SUFFIXES[case.get("suffix", 0)]
+    rho = SymmetricTTNDO(bra_suffix=bs, ket_suffix=ks) if case.get("suffix", 0) else SymmetricTTNDO()
+    if call == "defaults":
+        rho.add_trivial_root(rid)
+    else:
+        rho.add_trivial_root(rid, dimension=rd) if call != "positional" else rho.add_trivial_root(rid, rd)
+    rnode, rt = psi.root
+    rt = np.array(rt)
+    padded = np.zeros((rdim,) + rt.shape, dtype=rt.dtype)
+    padded[0] = rt
+    rho.add_symmetric_children_to_parent(rnode.identifier, padded, padded.conj(), 0, rid, 0, parent_bra_leg=1)
+    explicit_bra_leg = case.get("bra_leg", 0)
+
+    def rec(node):
+        for pos, cid in enumerate(node.children):
+            cnode, ct = psi[cid]
+            ct = np.array(ct)
+            # tensors[] access has put the legs in (parent, children, open) order; the root got a new leading leg
+            pleg = (0 if node.is_root() else 1) + pos + (1 if node.is_root() else 0)
+            if explicit_bra_leg == 1:
+                rho.add_symmetric_children_to_parent(cid, ct, ct.conj(), 0, node.identifier, pleg, parent_bra_leg=pleg)
+            elif explicit_bra_leg == 2:
+                rho.add_symmetric_children_to_parent(cid, ct, ct.conj(), 0, node.identifier, pleg, None)
+            else:
+                rho.add_symmetric_children_to_parent(cid, ct, ct.conj(), 0, node.identifier, pleg)
+            rec(cnode)
+    rec(rnode)
+    return rho, rid, rdim, bs, ks
 
 
 # ------------------------------------------------------------------ one case
@@ -131,10 +242,10 @@ def _graph_lines(psi, ttno, names):
             f"C16 ttno {root} " + " ".join(f"{i}:{kids(psi, i)};{kids(ttno, i)}" for i in range(n))]
 
 
-def _graph_check(ctx, case, tag, rho, psi, ttno, names, mo_trace, mo_ttno):
+def _graph_check(ctx, case, tag, rho, psi, ttno, names, mo_trace, mo_ttno, rid=ROOT_ID):
     from harness.props.c04 import _einsum_from_model
     inv = {v: k for k, v in names.items()}
-    num = {ROOT_ID: 0}
+    num = {rid: 0}
     for nm, i in inv.items():
         num[nm + "_ket"] = 2 * i + 1
         num[nm + "_bra"] = 2 * i + 2
@@ -175,7 +286,8 @@ def _graph_check(ctx, case, tag, rho, psi, ttno, names, mo_trace, mo_ttno):
         scale = 1.0
         for arr, _ in ops:
             scale *= max(float(np.linalg.norm(arr)), 1e-300)
-        if abs(got - complex(ref)) > 1e-9 * max(abs(complex(ref)), 1e-6 * scale):
+        gtol, floor = (SINGLE_TOL, 1.0) if case.get("dtype") == "single" else (1e-9, 1e-6)
+        if abs(got - complex(ref)) > gtol * max(abs(complex(ref)), floor * scale):
             ctx.corr_fail(case, f"{tag} {what}: library {got!r} differs from the contraction over the model's global "
                                 f"binding list {complex(ref)!r}")
 
@@ -186,17 +298,19 @@ def _hex(s):
 
 def _order_line(rho):
     """Model of ttndo_contraction_order on the real identifier strings (hex-encoded), linearised order."""
-    return "C16 order " + _hex("_ket") + " " + " ".join(_hex(x) for x in rho.linearise())
+    return "C16 order " + _hex(rho.ket_suffix) + " " + " ".join(_hex(x) for x in rho.linearise())
 
 
 def _case(ctx, case, model_out=None):
-    from pytreenet.ttns.ttndo import from_ttns
     from pytreenet.operators.tensorproduct import TensorProduct
     from pytreenet.contractions.ttndo_contractions import ttndo_contraction_order
     rng, nprng, psi, ttno, names = _make(case)
     exact = case["exact"]
     n = len(case["par"])
-    rdim = case["rdim"]
+    rid, rdim = _root_params(case)
+    manual = case.get("build", "from_ttns") == "manual"
+    dt = case.get("dtype", "c128")
+    tol = SINGLE_TOL if dt == "single" else 1e-10
     order = sorted(psi.nodes)
     dims = dense.phys_dims(psi, order)
     v = dense.ttns_vector(psi, order)
@@ -207,8 +321,20 @@ def _case(ctx, case, model_out=None):
     ctx.tally("regime", "exact" if exact else "float")
     ctx.tally("names", style)
     ctx.tally("ttno", case["ttno"])
+    ctx.tally("build", case.get("build", "from_ttns") + "/" + case.get("call", "explicit"))
+    ctx.tally("root_id", "default" if rid == ROOT_ID else ("custom, ends in _bra" if rid.endswith("_bra") else
+                                                           ("custom, contains _ket" if "_ket" in rid else "custom")))
+    ctx.tally("element_type", dt)
+    ctx.tally("magnitude_exponent", case.get("mag", 0))
+    ctx.tally("source_state", "canonical (centre recorded)" if psi.orthogonality_center_id is not None else "no centre")
+    ctx.tally("state_vector_is_zero", nv == 0)
+    if manual:
+        ctx.tally("manual_suffixes", "%s / %s" % SUFFIXES[case.get("suffix", 0)])
+        ctx.tally("manual_parent_bra_leg", ["omitted", "explicit (= parent_leg)", "None"][case.get("bra_leg", 0)])
     ctx.sample(case, 3)
-    tag = f"[{'exact' if exact else 'float'}, n={n}, root bond {rdim}, names {style}]"
+    extra = "".join(f", {k}={case[k]}" for k in ("build", "call", "root_id", "suffix", "dtype", "gauge", "mag")
+                    if case.get(k))
+    tag = f"[{'exact' if exact else 'float'}, n={n}, root bond {rdim}, names {style}{extra}]"
     probs = []
 
     def report(msgs):
@@ -217,43 +343,64 @@ def _case(ctx, case, model_out=None):
 
     # ---- construction
     try:
-        rho = from_ttns(psi, root_id=ROOT_ID, root_bond_dim=rdim)
+        rho, rid, rdim, bs, ks = _build_rho(case, psi)
     except Exception as e:      # noqa: BLE001
-        report([f"from_ttns raised {type(e).__name__}: {str(e)[:160]}"])
+        report([f"{'manual construction' if manual else 'from_ttns'} raised {type(e).__name__}: {str(e)[:160]}"])
         return
-    # ---- stage B: structure and contraction-order filter against the model
-    impl_struct = _impl_struct(rho)
-    impl_order = " ".join(_hex(x) for x in ttndo_contraction_order(rho))
-    lines = [_struct_line(psi, ROOT_ID), _order_line(rho)] + _graph_lines(psi, ttno, names)
-    mo = model_out if model_out is not None else ctx.lean.batch(lines)
-    ctx.corr_cases += 1
-    # the insertion order of the node dictionary is not part of the stated structure (identifiers, parents, ordered
-    # children): the node records are compared as sorted lists
-    if sorted(mo[0].split(" ")) != sorted(impl_struct.split(" ")):
-        ctx.corr_fail(case, f"{tag} structure: impl=[{impl_struct}] model=[{mo[0]}]")
-    if mo[1] != (impl_order or "-"):
-        ctx.corr_fail(case, f"{tag} contraction order filter: impl=[{impl_order}] model=[{mo[1]}]")
-    # ---- stage B (graph): the model's global binding list of trace_ttndo / ttndo_ttno_expectation_value,
-    #      evaluated by einsum on the real tensors, against the library's values
-    if style != "ket" or True:
-        _graph_check(ctx, case, tag, rho, psi, ttno, names, mo[2], mo[3])
+    if not manual:
+        # ---- stage B: structure and contraction-order filter against the model
+        impl_struct = _impl_struct(rho)
+        impl_order = " ".join(_hex(x) for x in ttndo_contraction_order(rho))
+        lines = [_struct_line(psi, rid), _order_line(rho)] + _graph_lines(psi, ttno, names)
+        mo = model_out if model_out is not None else ctx.lean.batch(lines)
+        ctx.corr_cases += 1
+        # the insertion order of the node dictionary is not part of the stated structure (identifiers, parents, ordered
+        # children): the node records are compared as sorted lists
+        if sorted(mo[0].split(" ")) != sorted(impl_struct.split(" ")):
+            ctx.corr_fail(case, f"{tag} structure: impl=[{impl_struct}] model=[{mo[0]}]")
+        if mo[1] != (impl_order or "-"):
+            ctx.corr_fail(case, f"{tag} contraction order filter: impl=[{impl_order}] model=[{mo[1]}]")
+        # ---- stage B (graph): the model's global binding list of trace_ttndo / ttndo_ttno_expectation_value,
+        #      evaluated by einsum on the real tensors, against the library's values
+        _graph_check(ctx, case, tag, rho, psi, ttno, names, mo[2], mo[3], rid)
+    else:
+        # the documented refusal: a separate bra leg for a parent that is not the root
+        inner = [x for x in order if psi.nodes[x].parent is not None and psi.nodes[x].children]
+        if inner:
+            ctx.tally("route", "parent_bra_leg != parent_leg on a non-root parent (documented ValueError)")
+            x = inner[0]
+            c = psi.nodes[x].children[0]
+            ct = np.array(psi.tensors[c])
+            import copy
+            probe = copy.deepcopy(rho)
+            try:
+                probe.add_symmetric_children_to_parent(c + "#", ct, ct.conj(), 0, x, 1, parent_bra_leg=2)
+                probs.append("add_symmetric_children_to_parent accepted parent_bra_leg != parent_leg for a non-root "
+                             "parent (documented: ValueError)")
+            except ValueError:
+                pass
+            except Exception as e:      # noqa: BLE001
+                probs.append(f"add_symmetric_children_to_parent(parent_bra_leg != parent_leg, non-root parent) raised "
+                             f"{type(e).__name__} instead of the documented ValueError")
     # ---- the TTNDO itself: well-formed, = psi (x) conj(psi), padding
     wf = dense.well_formed(rho)
     if wf:
         report([f"TTNDO not well-formed: {wf[:2]}"])
         return
-    kets = [x + "_ket" for x in order]
-    bras = [x + "_bra" for x in order]
+    kets = [x + ks for x in order]
+    bras = [x + bs for x in order]
     try:
-        arr, _ = dense.ttn_dense(rho, [ROOT_ID] + kets + bras)
+        arr, _ = dense.ttn_dense(rho, [rid] + kets + bras)
         full = np.asarray(arr).reshape(v.size, v.size)
         ref = np.outer(v, v.conj())
-        if (not np.array_equal(full, ref)) if exact else (np.linalg.norm(full - ref) > 1e-10 * max(nv * nv, 1e-300)):
+        if (not np.array_equal(full, ref)) if exact else (np.linalg.norm(full - ref) > tol * max(nv * nv, 1e-300)):
             probs.append("dense contraction of the TTNDO != psi (x) conj(psi)")
     except Exception as e:      # noqa: BLE001
         probs.append(f"dense contraction of the TTNDO impossible: {type(e).__name__}: {str(e)[:120]}")
-    rk = rho.tensors[psi.root_id + "_ket"]
-    rb = rho.tensors[psi.root_id + "_bra"]
+    snapshot = {nid: np.array(rho.tensors[nid]) for nid in rho.nodes}
+    struct_before = dense.structure(rho)
+    rk = rho.tensors[psi.root_id + ks]
+    rb = rho.tensors[psi.root_id + bs]
     rt = psi.tensors[psi.root_id]
     if rk.shape[0] != rdim or np.any(rk[1:] != 0) or np.any(rb[1:] != 0):
         probs.append("padded root bond carries non-zero entries beyond index 0")
@@ -271,7 +418,7 @@ def _case(ctx, case, model_out=None):
             probs.append(f"{route}: raised {type(e).__name__}: {str(e)[:140]}")
             return
         ref = complex(ref)
-        ok = (got == ref) if cmpx else (abs(got - ref) <= 1e-10 * max(scale, 1e-300))
+        ok = (got == ref) if cmpx else (abs(got - ref) <= tol * max(scale, 1e-300))
         if not ok:
             probs.append(f"{route}: library {got!r} != dense {ref!r}")
 
@@ -300,6 +447,9 @@ def _case(ctx, case, model_out=None):
     # the source state must be untouched and the TTNDO unchanged by the queries
     if not np.array_equal(v, dense.ttns_vector(psi, order)):
         probs.append("source state changed")
+    if dense.structure(rho) != struct_before or set(rho.tensors.keys()) != set(snapshot) or any(
+            not np.array_equal(np.asarray(rho.tensors[nid]), snapshot[nid]) for nid in snapshot):
+        probs.append("the density-operator network was changed by the queries")
     report(probs)
 
 
@@ -307,24 +457,66 @@ def _case(ctx, case, model_out=None):
 
 def gen_cases(ctx):
     rng = ctx.rng
+    arng = ctx.subrng("audit")
     cases = []
     for _ in range(ctx.n(1500, 15000)):
         kind = rng.choice([None, None, None, "spider", "chain", "star"])
         n = rng.choice([3, 4, 5, 6]) if kind else rng.choice([1, 1, 2, 3, 4, 5, 6])
-        cases.append({"par": gen.random_parent_array(rng, n, kind), "seed": rng.randrange(10 ** 9),
-                      "exact": rng.random() < 0.5, "rdim": rng.choice([1, 2, 2, 3, 4]),
-                      "names": rng.choice(["plain", "plain", "bra", "bra", "ket"]),
-                      "ttno": rng.choice(["random", "terms"])})
+        case = {"par": gen.random_parent_array(rng, n, kind), "seed": rng.randrange(10 ** 9),
+                "exact": rng.random() < 0.5, "rdim": rng.choice([1, 2, 2, 3, 4]),
+                "names": rng.choice(["plain", "plain", "bra", "bra", "ket"]),
+                "ttno": rng.choice(["random", "terms"])}
+        _audit_axes(case, arng)
+        cases.append(case)
+    # networks built by hand through the public SymmetricTTNDO API (custom suffixes, explicit / omitted parent_bra_leg)
+    for _ in range(ctx.n(160, 1600)):
+        kind = arng.choice([None, None, "spider", "chain", "star"])
+        n = arng.choice([3, 4, 5, 6]) if kind else arng.choice([1, 2, 3, 4, 5])
+        case = {"par": gen.random_parent_array(arng, n, kind), "seed": arng.randrange(10 ** 9),
+                "exact": arng.random() < 0.5, "rdim": arng.choice([1, 2, 3, 5]),
+                "names": arng.choice(["plain", "prefix", "bra", "ket"]), "ttno": arng.choice(["random", "terms"]),
+                "build": "manual", "suffix": arng.randrange(len(SUFFIXES)), "bra_leg": arng.randrange(3),
+                "call": arng.choice(["explicit", "explicit", "defaults", "positional"]),
+                "root_id": arng.choice([ROOT_ID] + ROOT_IDS)}
+        if "P-C16-root-id-ket-suffix" in PENDING_FINDINGS and case["root_id"].endswith(SUFFIXES[case["suffix"]][1]):
+            case["root_id"] = "R"       # pending finding: a root identifier ending in the ket suffix
+        if arng.random() < 0.3:
+            _audit_axes(case, arng, call=False)
+        cases.append(case)
     return cases
+
+
+def _audit_axes(case, arng, call=True):
+    """Input-space audit axes, drawn from a separate generator stream (the base cases stay what they were)."""
+    exact = case["exact"]
+    if call and arng.random() < 0.35:
+        case["call"] = arng.choice(["defaults", "positional", "root_only", "dim_only", "explicit"])
+        pool = ROOT_IDS + ([] if "P-C16-root-id-ket-suffix" in PENDING_FINDINGS else ROOT_IDS_PENDING)
+        case["root_id"] = arng.choice(pool)
+        if arng.random() < 0.3:
+            case["rdim"] = arng.choice([5, 6, 8])
+        if arng.random() < 0.3:
+            case["rdim_np"] = 1
+    r = arng.random()
+    if r < 0.25:
+        case["dtype"] = arng.choice(["real", "int", "single", "view"] if exact else ["real", "single", "view"])
+    if arng.random() < 0.15 and len(case["par"]) <= 6:
+        case["names"] = "prefix"
+    if not exact:
+        if arng.random() < 0.25:
+            case["gauge"] = 1
+        if arng.random() < 0.25:
+            case["mag"] = arng.choice([8, 6, -6, -8])
 
 
 def _model_lines(case):
     """The two protocol lines of a case (None when the construction itself fails: reported by _case)."""
-    from pytreenet.ttns.ttndo import from_ttns
+    if case.get("build", "from_ttns") == "manual":
+        return None
     try:
         _, _, psi, ttno, names = _make(case)
-        rho = from_ttns(psi, root_id=ROOT_ID, root_bond_dim=case["rdim"])
-        return [_struct_line(psi, ROOT_ID), _order_line(rho)] + _graph_lines(psi, ttno, names)
+        rho, rid, _, _, _ = _build_rho(case, psi)
+        return [_struct_line(psi, rid), _order_line(rho)] + _graph_lines(psi, ttno, names)
     except Exception:           # noqa: BLE001
         return None
 
@@ -367,5 +559,12 @@ def shrink(case):
         yield dict(case, names="plain")
     if case["ttno"] == "random":
         yield dict(case, ttno="terms")
-    if not case["exact"]:
+    for k in ("dtype", "gauge", "mag", "rdim_np", "call", "root_id", "bra_leg"):
+        if case.get(k):
+            yield {kk: vv for kk, vv in case.items() if kk != k}
+    if case.get("suffix"):
+        yield dict(case, suffix=0)
+    if case["names"] == "prefix":
+        yield dict(case, names="plain")
+    if not case["exact"] and case.get("dtype") in (None, "c128", "view"):
         yield dict(case, exact=True)
